@@ -121,6 +121,8 @@ pub struct Epoch {
     /// extra command-line arguments of the epoch process (what `std::env::args()` shows the
     /// macro: a compiler session is started with `--test`, `--edition=..`, `--cfg ..`, ...)
     pub argv: Vec<String>,
+    /// CPUs the epoch process "may run on" (what `available_parallelism()` reports); 0 = the real number
+    pub cpus: u32,
     pub jobs: Vec<Job>,
     /// consumed one per scheduling event (point hit or job end); when the
     /// list is exhausted the answer is `Cont`
@@ -142,6 +144,7 @@ impl Epoch {
             "pid": self.pid,
             "env": self.env.iter().map(|(k, v)| json!([k, v])).collect::<Vec<_>>(),
             "argv": self.argv,
+            "cpus": self.cpus,
             "jobs": self.jobs.iter().map(|j| json!({"prog": j.prog, "thread": j.thread})).collect::<Vec<_>>(),
             "decisions": self.decisions.iter().map(|d| d.to_json()).collect::<Vec<_>>(),
         })
@@ -165,6 +168,7 @@ impl Epoch {
                         .collect()
                 })
                 .unwrap_or_default(),
+            cpus: v["cpus"].as_u64().unwrap_or(0) as u32,
             argv: v["argv"].as_array().map(|a| a.iter().filter_map(|x| x.as_str().map(|s| s.to_string())).collect()).unwrap_or_default(),
             jobs: v["jobs"]
                 .as_array()
@@ -216,6 +220,7 @@ impl Plan {
                 pid: 1000 + (hash_seed % 30000) as i64,
                 env: vec![],
                 argv: vec![],
+                cpus: 1,
                 jobs: vec![Job { prog: 0, thread: 0 }],
                 decisions: vec![],
             }],
